@@ -282,14 +282,22 @@ def symtabName : List Nat := [46, 115, 121, 109, 116, 97, 98]        -- ".symtab
 def strtabName : List Nat := [46, 115, 116, 114, 116, 97, 98]        -- ".strtab"
 def relaPrefix : List Nat := [46, 114, 101, 108, 97]                 -- ".rela"
 
+/-- `get_string(name)`, then build a section header from the name's offset, append it to `section_headers`
+    and, when `register`, record its 1-based number in `section_numbers` -/
+def St.addHeader (s : St) (name : List Nat) (mk : Nat → Hdr) (register : Bool) : St :=
+  let (s, nm) := s.getString name
+  let shdrs := s.shdrs ++ [mk nm]
+  { s with shdrs := shdrs, secnums := if register then (name, shdrs.length) :: s.secnums else s.secnums }
+
+/-- the PROGBITS header of `gen_section_header` -/
+def secHdr (nm : Nat) (sec : Sec) (offset : Int) : Hdr :=
+  [(.sh_name, nm), (.sh_type, 1),
+   (.sh_flags, if sec.name = dataName then SHF_ALLOC ||| SHF_WRITE else SHF_ALLOC ||| SHF_EXECINSTR),
+   (.sh_addr, sec.address), (.sh_offset, offset), (.sh_size, sec.data.length), (.sh_addralign, sec.alignment)]
+
 /-- `gen_section_header` -/
 def St.genSectionHeader (s : St) (sec : Sec) (offset : Int) : St :=
-  let (s, nm) := s.getString sec.name
-  let flags := if sec.name = dataName then SHF_ALLOC ||| SHF_WRITE else SHF_ALLOC ||| SHF_EXECINSTR
-  let h : Hdr := [(.sh_name, nm), (.sh_type, 1), (.sh_flags, flags), (.sh_addr, sec.address),
-                  (.sh_offset, offset), (.sh_size, sec.data.length), (.sh_addralign, sec.alignment)]
-  let shdrs := s.shdrs ++ [h]
-  { s with shdrs := shdrs, secnums := (sec.name, shdrs.length) :: s.secnums }
+  s.addHeader sec.name (fun nm => secHdr nm sec offset) true
 
 def pageSize : Nat := 0x1000
 
@@ -388,6 +396,11 @@ def wordAlign (c : Cls) : Nat :=
 def orderSymbols (syms : List Sym) : List Sym :=
   syms.filter (fun s => !s.isGlobal) ++ syms.filter (fun s => s.isGlobal)
 
+/-- the SYMTAB header of `write_symbol_table` (`sh_link` is patched in `write_section_headers`) -/
+def symtabHdr (nm off size info alignment entsize : Nat) : Hdr :=
+  [(.sh_name, nm), (.sh_type, 2), (.sh_flags, SHF_ALLOC), (.sh_offset, off), (.sh_size, size), (.sh_link, 0),
+   (.sh_info, info), (.sh_addralign, alignment), (.sh_entsize, entsize)]
+
 /-- `write_symbol_table` -/
 def writeSymbolTable (q : Quirks) (L : Layouts) (o : Obj) (s : St) : Except Err St :=
   let alignment := wordAlign o.arch.cls
@@ -402,12 +415,8 @@ def writeSymbolTable (q : Quirks) (L : Layouts) (o : Obj) (s : St) : Except Err 
     match writeSymbols q L o s 1 (orderSymbols o.symbols) with
     | .error e => .error e
     | .ok s =>
-      let (s, nm) := s.getString symtabName
-      let h : Hdr := [(.sh_name, nm), (.sh_type, 2), (.sh_flags, SHF_ALLOC), (.sh_offset, symtabOffset),
-                      (.sh_size, symtabSize), (.sh_link, 0), (.sh_info, locals.length + 1),
-                      (.sh_addralign, alignment), (.sh_entsize, entsize)]
-      let shdrs := s.shdrs ++ [h]
-      .ok { s with shdrs := shdrs, secnums := (symtabName, shdrs.length) :: s.secnums }
+      .ok (s.addHeader symtabName
+        (fun nm => symtabHdr nm symtabOffset symtabSize (locals.length + 1) alignment entsize) true)
 
 /-! ### RELA tables -/
 
@@ -453,7 +462,13 @@ def writeRelas (L : Layouts) (c : Cls) : St → List Rel → Except Err St
     | .error e => .error e
     | .ok s' => writeRelas L c s' rest
 
-/-- the body of the `for section_name in sorted(reloc_groups)` loop -/
+/-- the RELA header of `write_rela_table` (`sh_link` is patched later; not entered in `section_numbers`) -/
+def relaTabHdr (nm off size target alignment entsize : Nat) : Hdr :=
+  [(.sh_name, nm), (.sh_type, 4), (.sh_flags, SHF_INFO_LINK), (.sh_offset, off), (.sh_size, size), (.sh_link, 0),
+   (.sh_info, target), (.sh_addralign, alignment), (.sh_entsize, entsize)]
+
+/-- the body of the `for section_name in sorted(reloc_groups)` loop
+    (`get_string(rela_name)` and the `section_numbers[section_name]` lookup commute) -/
 def St.writeRelaGroup (L : Layouts) (o : Obj) (s : St) (secName : List Nat) : Except Err St :=
   let alignment := wordAlign o.arch.cls
   let entsize := hsize L.rela
@@ -465,14 +480,11 @@ def St.writeRelaGroup (L : Layouts) (o : Obj) (s : St) (secName : List Nat) : Ex
     match writeRelas L o.arch.cls s group with
     | .error e => .error e
     | .ok s =>
-      let (s, nm) := s.getString (relaPrefix ++ secName)
       match assoc secName s.secnums with
       | none => .error .KeyError
       | some target =>
-        let h : Hdr := [(.sh_name, nm), (.sh_type, 4), (.sh_flags, SHF_INFO_LINK), (.sh_offset, relaOffset),
-                        (.sh_size, entsize * group.length), (.sh_link, 0), (.sh_info, target),
-                        (.sh_addralign, alignment), (.sh_entsize, entsize)]
-        .ok { s with shdrs := s.shdrs ++ [h] }
+        .ok (s.addHeader (relaPrefix ++ secName)
+          (fun nm => relaTabHdr nm relaOffset (entsize * group.length) target alignment entsize) false)
 
 def writeRelaGroups (L : Layouts) (o : Obj) : St → List (List Nat) → Except Err St
   | s, [] => .ok s
@@ -485,15 +497,16 @@ def writeRelaGroups (L : Layouts) (o : Obj) : St → List (List Nat) → Except 
 def writeRelaTable (L : Layouts) (o : Obj) (s : St) : Except Err St :=
   writeRelaGroups L o s (relocSectionNames o.relocs)
 
+/-- the STRTAB header of `write_string_table` -/
+def strtabHdr (nm off size : Nat) : Hdr :=
+  [(.sh_name, nm), (.sh_type, 3), (.sh_flags, SHF_ALLOC), (.sh_offset, off), (.sh_size, size), (.sh_addralign, 1)]
+
 /-- `write_string_table` -/
 def writeStringTable (s : St) : St :=
   let off := s.tell
   let (s, nm) := s.getString strtabName
-  let size := s.strtab.length
   let s := s.write s.strtab
-  let h : Hdr := [(.sh_name, nm), (.sh_type, 3), (.sh_flags, SHF_ALLOC), (.sh_offset, off),
-                  (.sh_size, size), (.sh_addralign, 1)]
-  let shdrs := s.shdrs ++ [h]
+  let shdrs := s.shdrs ++ [strtabHdr nm off s.strtab.length]
   { s with shdrs := shdrs, secnums := (strtabName, shdrs.length) :: s.secnums }
 
 /-- patch the forward links of one section header (`write_section_headers`) -/
